@@ -84,5 +84,35 @@ def gradient_two_time_grids(inp):
     return {'violates': bool(bad), 'detail': bad}
 
 
+def gradient_user_derivatives(inp):
+    """the same system with USER-SUPPLIED propagator derivatives (exact, by a complex-step-free central difference of expm) and
+    parameters that differ between the two half steps: the gradient must equal the one obtained with the built-in derivatives"""
+    from scipy.linalg import expm
+    oqupy, psys, pts, rho0, target, params, dt, n = _setup(False)
+    sx, sy = oqupy.operators.sigma('x'), oqupy.operators.sigma('y')
+
+    def ham(a, b):
+        return 0.5 * a * sx + 0.5 * b * sy
+
+    def user_derivs(dt_, p):
+        h = 1e-6
+        out = []
+        for i in range(2):
+            q1, q2 = np.array(p, dtype=float), np.array(p, dtype=float)
+            q1[i] += h
+            q2[i] -= h
+            L1 = oqupy.ParameterizedSystem(ham).liouvillian(*q1)
+            L2 = oqupy.ParameterizedSystem(ham).liouvillian(*q2)
+            out.append((expm(L1 * dt_ / 2) - expm(L2 * dt_ / 2)) / (2 * h))
+        return out
+    usys = oqupy.ParameterizedSystem(ham, propagator_derivatives=user_derivs)
+    ref = np.array(oqupy.state_gradient(system=psys, initial_state=rho0, target_derivative=target.T, process_tensors=pts, parameters=params,
+                                        progress_type='silent')['gradient'])
+    got = np.array(oqupy.state_gradient(system=usys, initial_state=rho0, target_derivative=target.T, process_tensors=pts, parameters=params,
+                                        progress_type='silent')['gradient'])
+    dev = np.abs(got - ref).max(axis=1)
+    return {'violates': bool(dev.max() > 1e-6), 'max deviation per half-step row (user-supplied vs built-in derivatives)': [float(x) for x in dev]}
+
+
 # thorough tier (bounded native sweeps): (function, inputs, obligation of the open finding it reproduces or None)
-THOROUGH = [('gradient_vs_finite_difference', {}, None), ('gradient_two_time_grids', {}, None)]
+THOROUGH = [('gradient_vs_finite_difference', {}, None), ('gradient_two_time_grids', {}, None), ('gradient_user_derivatives', {}, None)]
